@@ -283,7 +283,7 @@ class RefModel:
         return out, value
 
     # -----------------------------------------------------------------------------------------
-    def euler(self, steps, dt, y=None, p=None, record=None, input_fn=None, heun=False):
+    def euler(self, steps, dt, y=None, p=None, record=None, input_fn=None, heun=False, stage2='same'):
         """Fixed step reference iterates. Discrete edge delays: source value at step k - round(d/dt), zero before
         the start.  record: list of keys (state or alg) to record at every step (value at step k before the
         update).  input_fn(k) -> dict key -> extrinsic value for step k."""
@@ -314,7 +314,8 @@ class RefModel:
                     y[key] = y[key] + dt * f[key]
             else:
                 y1 = {key: y[key] + dt * f[key] for key in keys}
-                f2, _ = self.rhs(y1, p, k, delayed, inputs=inp)
+                inp2 = inp if (stage2 == 'same' or not input_fn) else input_fn(k + 1)
+                f2, _ = self.rhs(y1, p, k, delayed, inputs=inp2)
                 for key in keys:
                     y[key] = y[key] + dt / 2 * (f[key] + f2[key])
         return rec, y
